@@ -560,7 +560,9 @@ func ruleSlotTableCoversRangeEnds(w *core.World, r *core.Report) {
 		return
 	}
 	n := 0
-	for _, in := range core.OwnInstrs(f) {
+	// the fill may sit in a helper split out of update (decode / install phases): such a helper, called from
+	// one place, is read as part of update; the bounds are then followed through its parameters
+	for _, in := range core.Instrs(f) {
 		st, ok := in.(*ssa.Store)
 		if !ok {
 			continue
